@@ -395,7 +395,7 @@ MUTANTS = [
     V('c12-macro-operands-unchecked', 'assembler/bytecode/assembled.py', "        for part in self._operand_parts:\n            part.get_value(label_scope, instruction_address, self.byte_size)\n", "", 'C12.5'),
     V('c12-max-ge', _P, "if self._max is not None and value > self._max:", "if self._max is not None and value >= self._max:", 'C12.1'),
     V('c12-min-dropped', _P, "        if self._min is not None and value < self._min:\n            sys.exit(f'ERROR: {self.line_id} - operand value of {value} is less than minimum allowed of {self._min}')\n", "", 'C12.1'),
-    V('c12-swap-max-min', 'assembler/model/operand/types/numeric_bytecode.py', "            self.bytecode_max,\n            self.bytecode_min,", "            self.bytecode_min,\n            self.bytecode_max,", 'C12.2'),
+    V('c12-swap-max-min', 'assembler/model/operand/types/numeric_bytecode.py', "                self.bytecode_max,\n                self.bytecode_min,", "                self.bytecode_min,\n                self.bytecode_max,", 'C12.2'),
     V('c12-enum-default', _P, "        if value not in self._value_dict:\n            sys.exit(\n                f'ERROR: {self.line_id} - numeric expression value of {value} is '\n                f'not an allowed value for numeric enumeration.'\n            )\n        return self._value_dict[value]", "        return self._value_dict.get(value, value)", 'C12.1'),
     V('c12-rel-size', _R, "            relative_value -= instruction_size - 1", "            relative_value -= instruction_size", 'C12.1'),
     V('c12-rel-bounds-before-adjust', _R, '''        if self._offset_from_instruction_end:
@@ -446,7 +446,7 @@ MUTANTS = [
                 )''', '''            except OverflowError as ofe:
                 packed_bits.append_bits(value & ((1 << p.value_size) - 1), p.value_size, p.byte_align, p.endian)''', 'C12.4'),
     V('c12-valid-address-ignored', 'assembler/model/operand/types/numeric_expression.py', "        return self.config['argument'].get('valid_address', False)", "        return self.config.get('valid_address', False)", 'C12.2'),
-    V('c12-rel-minmax-swapped', _R, "            self.min_offset,\n            self.max_offset,", "            self.max_offset,\n            self.min_offset,", 'C12.2'),
+    V('c12-rel-minmax-swapped', _R, "                self.min_offset,\n                self.max_offset,", "                self.max_offset,\n                self.min_offset,", 'C12.2'),
     V('c12-address-zone-global', _A, "            self.valid_memory_zone(memzone_manager),", "            memzone_manager.global_zone,", 'C12.2'),
 ]
 MUTANTS += [
